@@ -329,3 +329,294 @@ Proof.
   rewrite join_eq, (norm_list_split_runs cv _ (nps_noalt cv p)), comps_nps.
   rewrite (strip_list_good cv _ (gcomp_good cv _ (pc_gcomp cv p))). destruct (pc cv p); reflexivity.
 Qed.
+
+(* ------------------------------------------------------------------ case fold *)
+Lemma lower_length cv s : length (lower cv s) = length s.
+Proof. apply map_length. Qed.
+
+Lemma lower_app cv a b : lower cv (a ++ b) = lower cv a ++ lower cv b.
+Proof. apply map_app. Qed.
+
+Lemma lower_idem cv (Hf : fold_ok cv) s : lower cv (lower cv s) = lower cv s.
+Proof. unfold lower. rewrite map_map. apply map_ext. intros x. apply (fo_idem cv Hf). Qed.
+
+Lemma fold_sep cv (Hf : fold_ok cv) : cv_fold cv (cv_sep cv) = cv_sep cv.
+Proof. apply (proj2 (fo_sep cv Hf _)). reflexivity. Qed.
+
+Lemma fold_sep_inv cv (Hf : fold_ok cv) c : cv_fold cv c = cv_sep cv -> c = cv_sep cv.
+Proof. apply (proj1 (fo_sep cv Hf c)). Qed.
+
+Lemma fold_alt cv (Hf : fold_ok cv) a : cv_alt cv = Some a -> cv_fold cv a = a.
+Proof. intros Ha. apply (proj2 (fo_alt cv Hf a Ha a)). reflexivity. Qed.
+
+Lemma fold_alt_inv cv (Hf : fold_ok cv) a c : cv_alt cv = Some a -> cv_fold cv c = a -> c = a.
+Proof. intros Ha. apply (proj1 (fo_alt cv Hf a Ha c)). Qed.
+
+Lemma fold_colon cv (Hf : fold_ok cv) : cv_win cv = true -> cv_fold cv 58%N = 58%N.
+Proof. intros Hw. apply (proj2 (fo_colon cv Hf Hw _)). reflexivity. Qed.
+
+Lemma fold_colon_inv cv (Hf : fold_ok cv) c : cv_win cv = true -> cv_fold cv c = 58%N -> c = 58%N.
+Proof. intros Hw. apply (proj1 (fo_colon cv Hf Hw c)). Qed.
+
+Lemma lower_sep_iff cv (Hf : fold_ok cv) s : lower cv s = [cv_sep cv] <-> s = [cv_sep cv].
+Proof.
+  destruct s as [|x [|y s]]; simpl; split; intros H; try discriminate.
+  - injection H as H. apply (fold_sep_inv cv Hf) in H. subst. reflexivity.
+  - injection H as H. subst. rewrite (fold_sep cv Hf). reflexivity.
+Qed.
+
+Lemma lower_in cv s y : In y (lower cv s) -> exists x, In x s /\ cv_fold cv x = y.
+Proof. intros H. apply in_map_iff in H as [x [Hx Hi]]. exists x. split; assumption. Qed.
+
+Lemma lower_nosep cv (Hf : fold_ok cv) s : ~ In (cv_sep cv) s -> ~ In (cv_sep cv) (lower cv s).
+Proof.
+  intros H Hin. apply lower_in in Hin as [x [Hx Hfx]]. apply (fold_sep_inv cv Hf) in Hfx. subst. contradiction.
+Qed.
+
+Lemma lower_noalt cv (Hf : fold_ok cv) s : noalt cv s -> noalt cv (lower cv s).
+Proof.
+  intros H a Ha Hne Hin. apply lower_in in Hin as [x [Hx Hfx]].
+  apply (fold_alt_inv cv Hf a x Ha) in Hfx. subst. apply (H a Ha Hne Hx).
+Qed.
+
+Lemma gcomp_lower cv (Hf : fold_ok cv) q : gcomp cv q -> gcomp cv (lower cv q).
+Proof.
+  intros [[H1 H2] H3]. split; [split|].
+  - destruct q; [contradiction|discriminate].
+  - apply lower_nosep; assumption.
+  - apply lower_noalt; assumption.
+Qed.
+
+Lemma gcomp_map_lower cv (Hf : fold_ok cv) l : Forall (gcomp cv) l -> Forall (gcomp cv) (map (lower cv) l).
+Proof. induction 1; simpl; constructor; [apply gcomp_lower; assumption|assumption]. Qed.
+
+Lemma rp_lower cv (Hf : fold_ok cv) s : rp cv (lower cv s) = lower cv (rp cv s).
+Proof.
+  unfold rp. destruct (cv_alt cv) as [a|] eqn:Ea; [|reflexivity].
+  unfold replace_char, lower. rewrite !map_map. apply map_ext. intros x.
+  destruct (N.eqb_spec x a) as [->|Hx].
+  - replace (N.eqb (cv_fold cv a) a) with true; [symmetry; apply (fold_sep cv Hf)|].
+    symmetry. apply N.eqb_eq. apply (fold_alt cv Hf a Ea).
+  - replace (N.eqb (cv_fold cv x) a) with false; [reflexivity|].
+    symmetry. apply N.eqb_neq. intros H. apply (fold_alt_inv cv Hf a x Ea) in H. contradiction.
+Qed.
+
+Lemma pc_lower cv (Hf : fold_ok cv) s : pc cv (lower cv s) = map (lower cv) (pc cv s).
+Proof. unfold pc. rewrite rp_lower by exact Hf. apply comps_map. intros x. apply (fo_sep cv Hf). Qed.
+
+Lemma dl_lower cv (Hf : fold_ok cv) j : dl cv (lower cv j) = dl cv j.
+Proof.
+  unfold dl. destruct (cv_win cv) eqn:Ew; [|reflexivity]. simpl.
+  destruct j as [|x [|y j]]; try reflexivity. simpl.
+  destruct (N.eqb_spec y 58) as [->|Hy].
+  - apply N.eqb_eq. apply (fold_colon cv Hf Ew).
+  - apply N.eqb_neq. intros H. apply (fold_colon_inv cv Hf y Ew) in H. contradiction.
+Qed.
+
+Lemma add_sep_lower cv (Hf : fold_ok cv) j : lower cv (add_sep cv j) = add_sep cv (lower cv j).
+Proof.
+  destruct j as [|x j]; [reflexivity|]. simpl.
+  destruct (N.eqb_spec x (cv_sep cv)) as [->|Hx].
+  - rewrite (fold_sep cv Hf), N.eqb_refl. simpl. rewrite (fold_sep cv Hf). reflexivity.
+  - replace (N.eqb (cv_fold cv x) (cv_sep cv)) with false.
+    + simpl. rewrite (fold_sep cv Hf). reflexivity.
+    + symmetry. apply N.eqb_neq. intros H. apply (fold_sep_inv cv Hf) in H. contradiction.
+Qed.
+
+Lemma fin_lower cv (Hf : fold_ok cv) j : lower cv (fin cv j) = fin cv (lower cv j).
+Proof.
+  unfold fin. rewrite dl_lower by exact Hf. destruct (dl cv j); [reflexivity|apply add_sep_lower; exact Hf].
+Qed.
+
+Lemma lower_intercalate cv (Hf : fold_ok cv) l :
+  lower cv (intercalate (cv_sep cv) l) = intercalate (cv_sep cv) (map (lower cv) l).
+Proof. unfold lower. rewrite intercalate_map. rewrite (fold_sep cv Hf). reflexivity. Qed.
+
+Lemma lower_render cv (Hf : fold_ok cv) l : lower cv (render cv l) = render cv (map (lower cv) l).
+Proof.
+  destruct l as [|p l]; [simpl; rewrite (fold_sep cv Hf); reflexivity|].
+  unfold render. simpl map at 2. rewrite fin_lower, lower_intercalate by exact Hf. reflexivity.
+Qed.
+
+(* ------------------------------------------------------------------ split of a rendered path *)
+Lemma intercalate_good_fix c L : Forall (good c) L -> L <> [] ->
+  rstrip c (intercalate c L) = intercalate c L /\ intercalate c L <> [].
+Proof.
+  induction 1 as [|p l [Hp1 Hp2] Hl IH]; intros Hne; [contradiction|].
+  rewrite intercalate_cons. destruct l as [|q l].
+  - split; [apply rstrip_no; exact Hp2|exact Hp1].
+  - destruct IH as [IH1 IH2]; [discriminate|]. split.
+    + rewrite rstrip_app_keep.
+      * f_equal. rewrite rstrip_cons, IH1. destruct (intercalate c (q :: l)); [contradiction|reflexivity].
+      * rewrite rstrip_cons, IH1. destruct (intercalate c (q :: l)); [contradiction|discriminate].
+    + destruct p; discriminate.
+Qed.
+
+Lemma nps_intercalate cv L : Forall (gcomp cv) L -> L <> [] ->
+  nps cv (intercalate (cv_sep cv) L) = intercalate (cv_sep cv) L.
+Proof.
+  intros H Hne. apply nps_fix; [apply noalt_intercalate; exact H|].
+  right. apply intercalate_good_fix; [apply gcomp_good; exact H|exact Hne].
+Qed.
+
+Lemma nps_sep_intercalate cv L : Forall (gcomp cv) L -> L <> [] ->
+  nps cv (cv_sep cv :: intercalate (cv_sep cv) L) = cv_sep cv :: intercalate (cv_sep cv) L.
+Proof.
+  intros H Hne. destruct (intercalate_good_fix (cv_sep cv) L (gcomp_good cv L H) Hne) as [H1 H2].
+  apply nps_fix; [apply noalt_cons; [apply noalt_sep|apply noalt_intercalate; exact H]|].
+  right. rewrite rstrip_cons, H1. destruct (intercalate (cv_sep cv) L); [contradiction|reflexivity].
+Qed.
+
+Lemma split_nosep cv s : nps cv s = s -> ~ In (cv_sep cv) s -> split cv s = ([], s).
+Proof. intros Hn Hs. unfold split. rewrite Hn, (rfind_none _ _ Hs). reflexivity. Qed.
+
+Lemma split_at cv a b : nps cv (a ++ cv_sep cv :: b) = a ++ cv_sep cv :: b -> ~ In (cv_sep cv) b ->
+  split cv (a ++ cv_sep cv :: b) = (match a with [] => [cv_sep cv] | _ => a end, b).
+Proof.
+  intros Hn Hb. unfold split. rewrite Hn, (rfind_last _ a b Hb).
+  destruct a as [|x a]; [reflexivity|].
+  remember (x :: a) as a' eqn:Ea. destruct a' as [|x' a'']; [discriminate|].
+  rewrite Ea. rewrite firstn_len_app, skipn_S_len_app. reflexivity.
+Qed.
+
+Lemma join_pair cv d b : nps cv d = d -> gcomp cv b ->
+  join cv [d; b] =
+  fin cv (match rstrip (cv_sep cv) d with [] => b | d' => d' ++ cv_sep cv :: b end).
+Proof.
+  intros Hd Hb. rewrite join_eq. unfold norm_list. cbn [map]. rewrite Hd, (nps_gcomp cv b Hb).
+  destruct Hb as [[Hb1 Hb2] _].
+  destruct b as [|y b]; [contradiction|].
+  destruct d as [|x d].
+  - cbn [filter nonempty]. unfold strip_list. cbn [map filter app].
+    rewrite rstrip_no by exact Hb2. reflexivity.
+  - cbn [filter nonempty]. unfold strip_list. cbn [map].
+    rewrite strip_no by exact Hb2.
+    destruct (rstrip (cv_sep cv) (x :: d)) as [|z d']; reflexivity.
+Qed.
+
+(* list with its last element singled out *)
+Lemma dl_lower_app cv (Hf : fold_ok cv) X Z : X <> [] ->
+  dl cv (lower cv X ++ cv_sep cv :: Z) = dl cv (X ++ cv_sep cv :: Z).
+Proof.
+  intros HX. unfold dl. destruct (cv_win cv) eqn:Ew; [|reflexivity]. cbn [andb].
+  destruct X as [|x [|y X]]; [contradiction|reflexivity|]. simpl.
+  destruct (N.eqb_spec y 58) as [->|Hy].
+  - apply N.eqb_eq. apply (fold_colon cv Hf Ew).
+  - apply N.eqb_neq. intros H. apply (fold_colon_inv cv Hf y Ew) in H. contradiction.
+Qed.
+
+Lemma head_intercalate_good c L : Forall (good c) L ->
+  match intercalate c L with x :: _ => x <> c | [] => True end.
+Proof.
+  intros H. destruct H as [|p l [Hp1 Hp2] Hl]; [exact I|].
+  rewrite intercalate_cons. destruct p as [|x p]; [contradiction|].
+  assert (x <> c) by (intros ->; apply Hp2; left; reflexivity).
+  destruct l; assumption.
+Qed.
+
+Lemma fin_nodl cv j : dl cv j = false -> match j with x :: _ => x <> cv_sep cv | [] => False end ->
+  fin cv j = cv_sep cv :: j.
+Proof.
+  intros Hd Hj. unfold fin. rewrite Hd. destruct j as [|x j]; [contradiction|]. simpl.
+  destruct (N.eqb_spec x (cv_sep cv)); [contradiction|reflexivity].
+Qed.
+
+Lemma fin_sep cv j : fin cv (cv_sep cv :: j) = cv_sep cv :: j.
+Proof. unfold fin. destruct (dl cv (cv_sep cv :: j)); [reflexivity|]. simpl. rewrite N.eqb_refl. reflexivity. Qed.
+
+(* normalize_path, the three readings *)
+Lemma normalize_eq cv p d :
+  normalize_path cv p d =
+  let n := render cv (pc cv p) in
+  if cv_cs cv then n
+  else if d then join cv [lower cv (dirname cv n); basename cv n]
+  else lower cv n.
+Proof. unfold normalize_path. rewrite join_split_runs. reflexivity. Qed.
+
+Lemma normalize_cs cv p d : cv_cs cv = true -> normalize_path cv p d = render cv (pc cv p).
+Proof. intros H. rewrite normalize_eq. cbv zeta. rewrite H. reflexivity. Qed.
+
+Lemma normalize_ci cv (Hf : fold_ok cv) p : cv_cs cv = false ->
+  normalize_path cv p false = render cv (map (lower cv) (pc cv p)).
+Proof. intros H. rewrite normalize_eq. cbv zeta. rewrite H. apply lower_render. exact Hf. Qed.
+
+(* display form of a component list: everything but the leaf is folded *)
+Definition disp (cv : conv) (l : list str) : list str :=
+  match l with [] => [] | _ => map (lower cv) (removelast l) ++ [last l []] end.
+
+Lemma disp_snoc cv l b : disp cv (l ++ [b]) = map (lower cv) l ++ [b].
+Proof.
+  unfold disp. destruct (l ++ [b]) eqn:E; [destruct l; discriminate|]. rewrite <- E.
+  rewrite removelast_last, last_last. reflexivity.
+Qed.
+
+Lemma display_join cv (Hf : fold_ok cv) l b : Forall (gcomp cv) l -> gcomp cv b ->
+  let n := render cv (l ++ [b]) in
+  join cv [lower cv (dirname cv n); basename cv n] = render cv (map (lower cv) l ++ [b]).
+Proof.
+  intros Hl Hb n.
+  assert (Hr : render cv (l ++ [b]) = fin cv (intercalate (cv_sep cv) (l ++ [b]))) by (destruct l; reflexivity).
+  assert (Hr' : render cv (map (lower cv) l ++ [b]) = fin cv (intercalate (cv_sep cv) (map (lower cv) l ++ [b])))
+    by (destruct l; reflexivity).
+  pose proof Hb as [[Hb1 Hb2] Hb3].
+  assert (Hnb : nps cv b = b) by (apply nps_gcomp; exact Hb).
+  destruct l as [|p l].
+  - (* single component *)
+    subst n. rewrite Hr, Hr'. cbn [app map intercalate].
+    unfold fin at 1 2. destruct (dl cv b) eqn:Ed.
+    + unfold dirname, basename. rewrite (split_nosep cv b Hnb Hb2). cbn [fst snd lower map].
+      rewrite join_pair by (try apply nps_nil; exact Hb). reflexivity.
+    + assert (Ha : add_sep cv b = [] ++ cv_sep cv :: b).
+      { destruct b as [|x b]; [contradiction|]. simpl.
+        destruct (N.eqb_spec x (cv_sep cv)) as [->|]; [exfalso; apply Hb2; left; reflexivity|reflexivity]. }
+      rewrite Ha. unfold dirname, basename. rewrite split_at.
+      * cbn [fst snd]. rewrite join_pair; [|apply nps_fix; [apply lower_noalt; [exact Hf|apply noalt_sep]|left; simpl; rewrite (fold_sep cv Hf); reflexivity]|exact Hb].
+        simpl lower. rewrite (fold_sep cv Hf). rewrite rstrip_cons. simpl. rewrite N.eqb_refl. reflexivity.
+      * change ([] ++ cv_sep cv :: b) with (cv_sep cv :: b).
+        apply nps_fix; [apply noalt_cons; [apply noalt_sep|exact Hb3]|].
+        right. rewrite rstrip_cons, (rstrip_no _ _ Hb2). destruct b; [contradiction|reflexivity].
+      * exact Hb2.
+  - (* at least one directory component *)
+    set (L := p :: l) in *. assert (HL : L <> []) by discriminate.
+    assert (HLl : map (lower cv) L <> []) by discriminate.
+    pose proof (gcomp_map_lower cv Hf L Hl) as Hl'.
+    subst n. rewrite Hr, Hr'. rewrite !intercalate_snoc by assumption.
+    set (X := intercalate (cv_sep cv) L).
+    destruct (intercalate_good_fix (cv_sep cv) L (gcomp_good cv L Hl) HL) as [HX1 HX2]. fold X in HX1, HX2.
+    destruct (intercalate_good_fix (cv_sep cv) _ (gcomp_good cv _ Hl') HLl) as [HY1 HY2].
+    assert (HlX : lower cv X = intercalate (cv_sep cv) (map (lower cv) L)) by (apply lower_intercalate; exact Hf).
+    rewrite <- HlX in *.
+    assert (HnXb : nps cv (X ++ cv_sep cv :: b) = X ++ cv_sep cv :: b).
+    { apply nps_fix; [apply noalt_app; split; [apply noalt_intercalate; exact Hl|apply noalt_cons; [apply noalt_sep|exact Hb3]]|].
+      right. rewrite rstrip_app_keep; [f_equal|]; rewrite rstrip_cons, (rstrip_no _ _ Hb2); destruct b; try contradiction; try reflexivity; discriminate. }
+    destruct (dl cv (X ++ cv_sep cv :: b)) eqn:Ed.
+    + assert (Hfj : fin cv (X ++ cv_sep cv :: b) = X ++ cv_sep cv :: b) by (unfold fin; rewrite Ed; reflexivity).
+      rewrite Hfj.
+      unfold dirname, basename. rewrite split_at by assumption. cbn [fst snd].
+      replace (match X with [] => [cv_sep cv] | _ :: _ => X end) with X by (destruct X; [contradiction|reflexivity]).
+      rewrite join_pair; [|rewrite HlX; apply nps_intercalate; assumption|exact Hb].
+      rewrite HY1. destruct (lower cv X); [contradiction|reflexivity].
+    + assert (Hhead : match X with x :: _ => x <> cv_sep cv | [] => True end)
+        by (apply head_intercalate_good; apply gcomp_good; exact Hl).
+      assert (Ha : add_sep cv (X ++ cv_sep cv :: b) = (cv_sep cv :: X) ++ cv_sep cv :: b).
+      { destruct X as [|x X]; [contradiction|]. simpl.
+        destruct (N.eqb_spec x (cv_sep cv)); [contradiction|reflexivity]. }
+      assert (Hfj : fin cv (X ++ cv_sep cv :: b) = add_sep cv (X ++ cv_sep cv :: b)) by (unfold fin; rewrite Ed; reflexivity).
+      rewrite Hfj, Ha. unfold dirname, basename. rewrite split_at.
+      * cbn [fst snd].
+        assert (Hls : lower cv (cv_sep cv :: X) = cv_sep cv :: lower cv X) by (simpl; rewrite (fold_sep cv Hf); reflexivity).
+        rewrite Hls. rewrite join_pair; [|rewrite HlX; apply nps_sep_intercalate; assumption|exact Hb].
+        rewrite rstrip_cons, HY1. destruct (lower cv X) as [|y Y] eqn:EY; [contradiction|]. rewrite <- EY.
+        change ((cv_sep cv :: lower cv X) ++ cv_sep cv :: b) with (cv_sep cv :: (lower cv X ++ cv_sep cv :: b)).
+        rewrite fin_sep. symmetry. apply fin_nodl.
+        -- rewrite dl_lower_app by assumption. exact Ed.
+        -- rewrite EY. simpl. destruct X as [|x X]; [discriminate|]. simpl in EY. injection EY as <- _.
+           intros H. apply (fold_sep_inv cv Hf) in H. contradiction.
+      * change ((cv_sep cv :: X) ++ cv_sep cv :: b) with (cv_sep cv :: (X ++ cv_sep cv :: b)).
+        apply nps_fix; [apply noalt_cons; [apply noalt_sep|rewrite <- HnXb; apply nps_noalt]|].
+        right. rewrite rstrip_cons.
+        assert (Hrs : rstrip (cv_sep cv) (X ++ cv_sep cv :: b) = X ++ cv_sep cv :: b).
+        { rewrite rstrip_app_keep; [f_equal|]; rewrite rstrip_cons, (rstrip_no _ _ Hb2); destruct b; try contradiction; try reflexivity; discriminate. }
+        rewrite Hrs. destruct (X ++ cv_sep cv :: b) eqn:E; [destruct X; discriminate|reflexivity].
+      * exact Hb2.
+Qed.
